@@ -10,6 +10,10 @@
                        any token may end in @<k>: setTimeout(100k + 2·id + 2 ms)      (id = preorder index)
   do <call>…         control calls made back to back: start pause resume stop reset emit:<id>:s|f|b
   defer <call>…      the same calls posted with runNext
+  icb body|final <n> <target> <call>…   attach a one-shot script to the body of FunctionAction <n> / the final callback
+                     of composite <n>, making the calls on node <target>.  From here on the case is in FREE mode: the
+                     model does not predict it; both sides print `P free` per op, the harness evaluates the clauses
+                     that need no prediction (see harness.cpp) and prints `P VIOLATION …`.   settle: check for stuck composites
   cb final|fin|blk <call>…   attach a one-shot script to the root's final / finish / block callback: the next
                      invocation of that callback makes these calls (start pause resume stop reset) on the root,
                      synchronously, from inside the callback; each result is reported as `P e ret <b>`
@@ -259,6 +263,8 @@ structure DS where
   plain : Bool := true          -- only `do start` once, adv, pass so far: the evaluator applies
   started : Bool := false
   scripted : Bool := false      -- a callback script was attached in this case: the re-entrant layer runs
+  free : Bool := false          -- an inner call-out script was attached (`icb`): the model does not predict the run,
+                                -- the harness checks the prediction-free clauses itself (`P VIOLATION …`)
   rootFins : Nat := 0           -- finish callbacks of the root since its last reset
   finals : List Nat := []       -- nodes whose final callback ran since their last reset
   nops : Nat := 0
@@ -354,9 +360,29 @@ def stepLine (ds : DS) (line : String) : DS × List String :=
             | "blk", some l => some (.cb .blk l)
             | _, _ => none
         | _, _ => none
+      -- free mode: syntax only
+      let isFn (t : T) (i : Nat) : Bool := (nodesOf t).any (fun x => x.1.id == i && (match x.1.kind with | .func _ _ => true | _ => false))
+      let isAsm (t : T) (i : Nat) : Bool := (nodesOf t).any (fun x => x.1.id == i && !x.1.isLeaf)
+      let icb? : Option Bool :=
+        match opw, args with
+        | "icb", which :: ni :: tg :: (c1 :: cs) =>
+            if (c1 :: cs).length > 6 then some false else
+            match ni.toNat?, tg.toNat?, (c1 :: cs).mapM ctl with
+            | some ni, some tg, some _ =>
+                some (ni < n && tg < n && ((which == "body" && isFn t ni) || (which == "final" && isAsm t ni)))
+            | _, _, _ => some false
+        | "icb", _ => some false
+        | "settle", [] => some ds.free
+        | "settle", _ => some false
+        | _, _ => none
+      match icb? with
+      | some false => (ds, ["bad-op"])
+      | some true => ({ ds with free := true, plain := false }, ["B free-mode", "P free"])
+      | none =>
       match opr? with
       | none => (ds, ["bad-op"])
       | some opr =>
+        if ds.free then (ds, ["B free-mode", "P free"]) else
         let ds := { ds with scripted := ds.scripted || (match opr with | .cb _ _ => true | _ => false) }
         let op : Op := match opr with | .op o => o | .cb _ _ => .pass
         let g0 := { ds.g with log := [] }
